@@ -122,6 +122,13 @@ def h5_oracle(case, out):
     if out.startswith("DIED") or out.startswith("ERR"):
         return "implementation died: " + out[:200]
     d = kv(out)
+    chunk = [int(x, 16) for x in case.split(" ")[3].split(",")]
+    if sum(1 for v in chunk if v > 1) == 5:
+        # a chunk with five dimensions above 1 is beyond what the compressor supports (C09: refused cleanly): the filter returns 0 and HDF5 reports
+        # the failure when the chunk leaves its cache (H5Dclose / H5Fclose); what must not happen is a write that reports success throughout
+        if d.get("st", "").split(",")[1:2] in (["-1"], ["-2"]):
+            return None
+        return "a genuinely five-dimensional chunk was neither stored within the bound nor refused (HDF5 status %s)" % d.get("st") if (d.get("st") != "0,0,0" or int(d["viol"], 16)) else None
     if d.get("st") != "0,0,0":
         return "HDF5 status " + str(d.get("st"))
     if int(d["viol"], 16):
